@@ -329,152 +329,175 @@ Definition opt_or {A} (a b : option A) : option A := match a with Some _ => a | 
 Definition widths_len (h : option t_hmtx) : N :=
   match h with Some x => match x_widths x with Some w => N.of_nat (length w) | None => 0%N end | None => 0%N end.
 
-Definition M_read_merge (t : tables) : outcome font :=
+(* numGlyphs and the (possibly truncated) hmtx data, read.go:187-207 *)
+Definition merge_counts (t : tables) : outcome (N * option t_hmtx) :=
   let ng0 := match t_maxp t with Some (n, _) => n | None => 0%N end in
   let wl := widths_len (t_hm t) in
-  (* numGlyphs and the (possibly truncated) hmtx widths *)
-  match
-    (if (0 <? wl)%N then
-       if (ng0 =? 0)%N then Ok (wl, t_hm t)
-       else if (ng0 <? wl)%N then
-         Ok (ng0, option_map (fun x => mkHmtx (x_asc x) (x_desc x) (x_gap x) (x_angle x)
-                                   (option_map (firstn (N.to_nat ng0)) (x_widths x))) (t_hm t))
-       else if negb (wl =? ng0)%N then Err
-       else Ok (ng0, t_hm t)
-     else Ok (ng0, t_hm t))
-  with
-  | Err => Err | Panic => Panic | OutOfFuel => OutOfFuel
-  | Ok (ng, hm) =>
-    let hw := match hm with
-              | Some x => match x_widths x with Some ((_ :: _) as w) => Some w | _ => None end
-              | None => None end in
-    let o0 := t_ol t in
-    (* the outlines with the advance widths Read installs *)
-    match
-      (if t_cff t then
-         if negb (ng =? 0)%N && negb (ol_n o0 =? ng)%N then Err
-         else Ok (mkOutl true (ol_id o0) (ol_n o0) (ol_heights o0)
-                         (match hw with Some w => Some w | None => ol_widths o0 end)
-                         None None)
-       else
-         match t_hd t, t_maxp t with
-         | None, _ => Err
-         | _, None => Err
-         | Some _, Some (_, mx) =>
-           if negb (ng =? 0)%N && negb (ol_n o0 =? ng)%N then Err
-           else Ok (mkOutl false (ol_id o0) (ol_n o0) (ol_heights o0) hw
-                           (match t_po t with Some p => p_names p | None => None end) mx)
-         end)
-    with
-    | Err => Err | Panic => Panic | OutOfFuel => OutOfFuel
-    | Ok o =>
-      let nt := choose_name (t_nm t) in
-      let ci := t_ci t in
-      let family0 := match nt with Some n => n_family n | None => [] end in
-      let family := if str_empty family0 then match ci with Some c => c_family c | None => family0 end else family0 in
-      let width := match t_o2 t with Some o2 => o_width o2 | None => 0%N end in
-      let weight0 := match t_o2 t with Some o2 => o_weight o2 | None => 0%N end in
-      let weight := if (weight0 =? 0)%N then match ci with Some c => weight_from_string (c_weight c) | None => weight0 end else weight0 in
-      let version :=
-        match match nt with Some n => version_from_string (n_version n) | None => None end with
-        | Some v => ver_round v
-        | None =>
-          match t_hd t with
-          | Some h => ver_round (h_rev h)
-          | None =>
-            match ci with
-            | Some c => if str_empty (c_version c) then 0%N
-                        else match version_from_string (c_version c) with Some v => ver_round v | None => 0%N end
-            | None => 0%N
-            end
-          end
-        end in
-      let upm := match t_hd t with
-                 | Some h => h_upm h
-                 | None => match ci with
-                           | Some c => if c_fm0_zero c then 1000%N else c_upm_from_fm c
-                           | None => 1000%N end
-                 end in
-      let '(asc, desc, gap) :=
-        match t_o2 t with
-        | Some o2 => (o_asc o2, o_desc o2, o_gap o2)
-        | None => match hm with Some x => (x_asc x, x_desc x, x_gap x) | None => (0, 0, 0) end
-        end in
-      let cap0 := match t_o2 t with Some o2 => o_cap o2 | None => 0 end in
-      let xh0 := match t_o2 t with Some o2 => o_xh o2 | None => 0 end in
-      let cap := height_fallback cap0 (t_cm t) o cm_H in
-      let xh := height_fallback xh0 (t_cm t) o cm_x in
-      let angle := match t_po t with
-                   | Some p => p_angle p
-                   | None => match ci with
-                             | Some c => c_angle c
-                             | None => match hm with Some x => x_angle x | None => 0 end
-                             end
-                   end in
-      let '(upos, uthick) :=
-        match t_po t with
-        | Some p => (p_upos p * 65536, p_uthick p * 65536)
-        | None => match ci with Some c => (c_upos c, c_uthick c) | None => (0, 0) end
-        end in
-      let italic :=
-        negb (angle =? 0)
-        || match t_hd t with Some h => h_italic h | None => false end
-        || match t_o2 t with Some o2 => o_italic o2 || o_oblique o2 | None => false end
-        || match nt with Some n => contains s_Italic (n_subfamily n) | None => false end in
-      let oblique := match t_o2 t with Some o2 => o_oblique o2 | None => false end in
-      let bold0 := match t_o2 t with
-                   | Some o2 => o_bold o2
-                   | None => match t_hd t with Some h => h_bold h | None => false end
-                   end in
-      let bold :=
-        bold0 || match nt with
-                 | Some n => contains s_Bold (n_subfamily n)
-                             && negb (contains s_SemiBold (n_subfamily n))
-                             && negb (contains s_ExtraBold (n_subfamily n))
-                 | None => false end in
-      let regular := if italic || bold then false
-                     else match t_o2 t with Some o2 => o_regular o2 | None => false end in
-      let fc := match t_o2 t with Some o2 => Z.shiftr (o_fclass o2) 8 | None => 0 end in
-      let serif := is_some (t_o2 t) && ((fc =? 1) || (fc =? 2) || (fc =? 3) || (fc =? 4) || (fc =? 5) || (fc =? 7)) in
-      let script := is_some (t_o2 t) && (fc =? 10) in
-      match t_gsub t with
-      | None =>
-        Ok (mkFont family width weight regular bold italic oblique serif script
-              (match t_o2 t with Some o2 => o_cpr o2 | None => 0%N end)
-              version
-              (match t_hd t with Some h => h_created h | None => None end)
-              (match t_hd t with Some h => h_modified h | None => None end)
-              (match nt with Some n => n_descr n | None => [] end)
-              (match nt with Some n => n_sample n | None => [] end)
-              (match nt with Some n => n_copyright n | None => match ci with Some c => c_copyright c | None => [] end end)
-              (match nt with Some n => n_trademark n | None => match ci with Some c => c_notice c | None => [] end end)
-              (match nt with Some n => n_license n | None => [] end)
-              (match nt with Some n => n_licurl n | None => [] end)
-              (match t_o2 t with Some o2 => o_perm o2 | None => 0 end)
-              upm asc desc gap cap xh angle upos uthick o (t_cm t) (t_gdef t)
-              (if is_fixed_pitch (font_widths o) then None
-               else match t_cm t with
-                    | Some c => if cm_best c then cm_lig c else None
-                    | None => None end)
-              (t_gpos t))
-      | Some g =>
-        Ok (mkFont family width weight regular bold italic oblique serif script
-              (match t_o2 t with Some o2 => o_cpr o2 | None => 0%N end)
-              version
-              (match t_hd t with Some h => h_created h | None => None end)
-              (match t_hd t with Some h => h_modified h | None => None end)
-              (match nt with Some n => n_descr n | None => [] end)
-              (match nt with Some n => n_sample n | None => [] end)
-              (match nt with Some n => n_copyright n | None => match ci with Some c => c_copyright c | None => [] end end)
-              (match nt with Some n => n_trademark n | None => match ci with Some c => c_notice c | None => [] end end)
-              (match nt with Some n => n_license n | None => [] end)
-              (match nt with Some n => n_licurl n | None => [] end)
-              (match t_o2 t with Some o2 => o_perm o2 | None => 0 end)
-              upm asc desc gap cap xh angle upos uthick o (t_cm t) (t_gdef t)
-              (Some g) (t_gpos t))
+  if (0 <? wl)%N then
+    if (ng0 =? 0)%N then Ok (wl, t_hm t)
+    else if (ng0 <? wl)%N then
+      Ok (ng0, option_map (fun x => mkHmtx (x_asc x) (x_desc x) (x_gap x) (x_angle x)
+                                (option_map (firstn (N.to_nat ng0)) (x_widths x))) (t_hm t))
+    else if negb (wl =? ng0)%N then Err
+    else Ok (ng0, t_hm t)
+  else Ok (ng0, t_hm t).
+
+(* the non-empty advance widths of the hmtx table *)
+Definition hmtx_widths (hm : option t_hmtx) : option (list Z) :=
+  match hm with
+  | Some x => match x_widths x with Some ((_ :: _) as w) => Some w | _ => None end
+  | None => None
+  end.
+
+(* the Outlines value Read builds, read.go:209-292 *)
+Definition merge_outl (t : tables) (ng : N) (hm : option t_hmtx) : outcome outl :=
+  let hw := hmtx_widths hm in
+  let o0 := t_ol t in
+  if t_cff t then
+    if negb (ng =? 0)%N && negb (ol_n o0 =? ng)%N then Err
+    else Ok (mkOutl true (ol_id o0) (ol_n o0) (ol_heights o0)
+                    (match hw with Some w => Some w | None => ol_widths o0 end)
+                    None None)
+  else
+    match t_hd t, t_maxp t with
+    | None, _ => Err
+    | _, None => Err
+    | Some _, Some (_, mx) =>
+      if negb (ng =? 0)%N && negb (ol_n o0 =? ng)%N then Err
+      else Ok (mkOutl false (ol_id o0) (ol_n o0) (ol_heights o0) hw
+                      (match t_po t with Some p => p_names p | None => None end) mx)
+    end.
+
+(* the individual merge rules, read.go:294-451 *)
+Definition mg_name (t : tables) : option t_name := choose_name (t_nm t).
+
+Definition mg_family (t : tables) : str :=
+  let family0 := match mg_name t with Some n => n_family n | None => [] end in
+  if str_empty family0 then match t_ci t with Some c => c_family c | None => family0 end else family0.
+
+Definition mg_width (t : tables) : N := match t_o2 t with Some o2 => o_width o2 | None => 0%N end.
+
+Definition mg_weight (t : tables) : N :=
+  let weight0 := match t_o2 t with Some o2 => o_weight o2 | None => 0%N end in
+  if (weight0 =? 0)%N then match t_ci t with Some c => weight_from_string (c_weight c) | None => weight0 end
+  else weight0.
+
+Definition mg_version (t : tables) : N :=
+  match match mg_name t with Some n => version_from_string (n_version n) | None => None end with
+  | Some v => ver_round v
+  | None =>
+    match t_hd t with
+    | Some h => ver_round (h_rev h)
+    | None =>
+      match t_ci t with
+      | Some c => if str_empty (c_version c) then 0%N
+                  else match version_from_string (c_version c) with Some v => ver_round v | None => 0%N end
+      | None => 0%N
       end
     end
   end.
+
+Definition mg_upm (t : tables) : N :=
+  match t_hd t with
+  | Some h => h_upm h
+  | None => match t_ci t with
+            | Some c => if c_fm0_zero c then 1000%N else c_upm_from_fm c
+            | None => 1000%N end
+  end.
+
+Definition mg_vmetrics (t : tables) (hm : option t_hmtx) : Z * Z * Z :=
+  match t_o2 t with
+  | Some o2 => (o_asc o2, o_desc o2, o_gap o2)
+  | None => match hm with Some x => (x_asc x, x_desc x, x_gap x) | None => (0, 0, 0) end
+  end.
+
+Definition mg_cap (t : tables) (o : outl) : Z :=
+  height_fallback (match t_o2 t with Some o2 => o_cap o2 | None => 0 end) (t_cm t) o cm_H.
+Definition mg_xh (t : tables) (o : outl) : Z :=
+  height_fallback (match t_o2 t with Some o2 => o_xh o2 | None => 0 end) (t_cm t) o cm_x.
+
+Definition mg_angle (t : tables) (hm : option t_hmtx) : Z :=
+  match t_po t with
+  | Some p => p_angle p
+  | None => match t_ci t with
+            | Some c => c_angle c
+            | None => match hm with Some x => x_angle x | None => 0 end
+            end
+  end.
+
+Definition mg_underline (t : tables) : Z * Z :=
+  match t_po t with
+  | Some p => (p_upos p * 65536, p_uthick p * 65536)
+  | None => match t_ci t with Some c => (c_upos c, c_uthick c) | None => (0, 0) end
+  end.
+
+Definition mg_italic (t : tables) (hm : option t_hmtx) : bool :=
+  negb (mg_angle t hm =? 0)
+  || match t_hd t with Some h => h_italic h | None => false end
+  || match t_o2 t with Some o2 => o_italic o2 || o_oblique o2 | None => false end
+  || match mg_name t with Some n => contains s_Italic (n_subfamily n) | None => false end.
+
+Definition mg_oblique (t : tables) : bool := match t_o2 t with Some o2 => o_oblique o2 | None => false end.
+
+Definition mg_bold (t : tables) : bool :=
+  match t_o2 t with
+  | Some o2 => o_bold o2
+  | None => match t_hd t with Some h => h_bold h | None => false end
+  end
+  || match mg_name t with
+     | Some n => contains s_Bold (n_subfamily n)
+                 && negb (contains s_SemiBold (n_subfamily n))
+                 && negb (contains s_ExtraBold (n_subfamily n))
+     | None => false end.
+
+Definition mg_regular (t : tables) (hm : option t_hmtx) : bool :=
+  if mg_italic t hm || mg_bold t then false
+  else match t_o2 t with Some o2 => o_regular o2 | None => false end.
+
+Definition mg_fclass (t : tables) : Z := match t_o2 t with Some o2 => Z.shiftr (o_fclass o2) 8 | None => 0 end.
+Definition mg_serif (t : tables) : bool :=
+  let fc := mg_fclass t in
+  is_some (t_o2 t) && ((fc =? 1) || (fc =? 2) || (fc =? 3) || (fc =? 4) || (fc =? 5) || (fc =? 7)).
+Definition mg_script (t : tables) : bool := is_some (t_o2 t) && (mg_fclass t =? 10).
+
+(* read.go:466-480: without a GSUB table Read synthesises the standard
+   ligatures unless the font is monospaced *)
+Definition mg_gsub (t : tables) (o : outl) : option N :=
+  match t_gsub t with
+  | Some g => Some g
+  | None =>
+    if is_fixed_pitch (font_widths o) then None
+    else match t_cm t with
+         | Some c => if cm_best c then cm_lig c else None
+         | None => None end
+  end.
+
+Definition merge_fields (t : tables) (hm : option t_hmtx) (o : outl) : font :=
+  let nt := mg_name t in
+  let ci := t_ci t in
+  mkFont (mg_family t) (mg_width t) (mg_weight t) (mg_regular t hm) (mg_bold t) (mg_italic t hm)
+    (mg_oblique t) (mg_serif t) (mg_script t)
+    (match t_o2 t with Some o2 => o_cpr o2 | None => 0%N end)
+    (mg_version t)
+    (match t_hd t with Some h => h_created h | None => None end)
+    (match t_hd t with Some h => h_modified h | None => None end)
+    (match nt with Some n => n_descr n | None => [] end)
+    (match nt with Some n => n_sample n | None => [] end)
+    (match nt with Some n => n_copyright n | None => match ci with Some c => c_copyright c | None => [] end end)
+    (match nt with Some n => n_trademark n | None => match ci with Some c => c_notice c | None => [] end end)
+    (match nt with Some n => n_license n | None => [] end)
+    (match nt with Some n => n_licurl n | None => [] end)
+    (match t_o2 t with Some o2 => o_perm o2 | None => 0 end)
+    (mg_upm t)
+    (fst (fst (mg_vmetrics t hm))) (snd (fst (mg_vmetrics t hm))) (snd (mg_vmetrics t hm))
+    (mg_cap t o) (mg_xh t o) (mg_angle t hm)
+    (fst (mg_underline t)) (snd (mg_underline t))
+    o (t_cm t) (t_gdef t) (mg_gsub t o) (t_gpos t).
+
+Definition M_read_merge (t : tables) : outcome font :=
+  c <- merge_counts t ;;
+  o <- merge_outl t (fst c) (snd c) ;;
+  Ok (merge_fields t (snd c) o).
 
 (* one write/read cycle: the tables as decoded from the written file, and the
    font Read builds from them *)
